@@ -500,31 +500,82 @@ theorem blank_not_banner (t : Str) (h : isBlankLine t = true) : parse t = none :
       simp [List.isPrefixOf, Ne.symm hS]
     simp [parse, rxBanner, hm]
 
-/-- **header separation, whole lines.**  The peer's bytes arrive in any number of `recv`
-    results, each made of whole LF-terminated lines (`wire`; a CR before the LF is part of the
-    line and stripped like any trailing whitespace: `lineText_crlf`).  If no line before `l`
-    is a banner and `l` is one, then `get_banner` returns exactly the parse of `l`, the header
-    is exactly the non-blank earlier lines in order, and nothing behind `l` is consumed
-    (`after` stays unread; later `recv` results are not requested). -/
-theorem header_separation (pre : List (List Bytes)) (hs : List Bytes) (l : Bytes) (b : Banner.Banner)
-    (after : Bytes) (later : List Bytes) (h0 : List Str)
-    (hpre : ∀ ch ∈ pre, ch ≠ [] ∧ ∀ r ∈ ch, (0x0a : UInt8) ∉ r ∧ parse (lineText r) = none)
+/-- **segmentation independence** (holds of the code after the D17 repair, commit 04fd9e5).
+    For *every* byte stream, every content of the buffer and every way of cutting the stream
+    into non-empty `recv` results, `get_banner` reports the same banner and the same header
+    lines as if the whole stream had been in the buffer when the peer stopped sending
+    (`finish`: all LF-terminated lines in order, then the unterminated rest, if any, as a last
+    line).  What is left unread, followed by the `recv` results never requested, is exactly
+    what the whole-stream reading leaves unread.  No bound on sizes or on the number of cuts. -/
+theorem segmentation_independence (cs : List Bytes) (hne : ∀ c ∈ cs, c ≠ []) (h0 : List Str) (buf : Bytes) :
+    (getBanner h0 buf cs).banner = (finish h0 (buf ++ cs.flatten) []).banner ∧
+    (getBanner h0 buf cs).header = (finish h0 (buf ++ cs.flatten) []).header ∧
+    (getBanner h0 buf cs).unread ++ (getBanner h0 buf cs).pending.flatten = (finish h0 (buf ++ cs.flatten) []).unread := by
+  induction cs generalizing h0 buf with
+  | nil => simp [getBanner, finish]
+  | cons c cs ih =>
+    have hc : c.isEmpty = false := by
+      have := (hne c (by simp)); cases c with
+      | nil => exact absurd rfl this
+      | cons a r => rfl
+    have hw : finish h0 (buf ++ (c :: cs).flatten) []
+        = (match scan h0 ((cutLines (buf ++ c)).1 ++ splitLines ((cutLines (buf ++ c)).2 ++ cs.flatten)) with
+            | (b, h, rest) => { banner := b, header := h, unread := rest.flatten, pending := [] }) := by
+      unfold finish
+      rw [List.flatten_cons, ← List.append_assoc, splitLines_append]
+    rw [hw]
+    simp only [getBanner, hc]
+    cases hs : scan h0 (cutLines (buf ++ c)).1 with
+    | mk b rest' =>
+      obtain ⟨h, rest⟩ := rest'
+      cases b with
+      | some b =>
+        rw [scan_append_some h0 _ _ b h rest hs]
+        simp [flatten_splitLines, List.append_assoc]
+      | none =>
+        rw [scan_append_none h0 _ _ h rest hs]
+        have := ih (fun x hx => hne x (by simp [hx])) h (cutLines (buf ++ c)).2
+        simpa [finish] using this
+
+/-- two deliveries of the same bytes give the same banner and the same header -/
+theorem segmentation_any_two (cs₁ cs₂ : List Bytes) (h₁ : ∀ c ∈ cs₁, c ≠ []) (h₂ : ∀ c ∈ cs₂, c ≠ [])
+    (hsame : cs₁.flatten = cs₂.flatten) (h0 : List Str) :
+    (getBanner h0 [] cs₁).banner = (getBanner h0 [] cs₂).banner ∧
+    (getBanner h0 [] cs₁).header = (getBanner h0 [] cs₂).header := by
+  obtain ⟨a1, a2, _⟩ := segmentation_independence cs₁ h₁ h0 []
+  obtain ⟨b1, b2, _⟩ := segmentation_independence cs₂ h₂ h0 []
+  rw [a1, a2, b1, b2, hsame]
+  exact ⟨rfl, rfl⟩
+
+/-- in particular: any cutting gives what the stream delivered in one piece gives -/
+theorem segmentation_whole (cs : List Bytes) (hne : ∀ c ∈ cs, c ≠ []) (hdata : cs.flatten ≠ []) (h0 : List Str) :
+    (getBanner h0 [] cs).banner = (getBanner h0 [] [cs.flatten]).banner ∧
+    (getBanner h0 [] cs).header = (getBanner h0 [] [cs.flatten]).header :=
+  segmentation_any_two cs [cs.flatten] hne (by simpa using hdata) (by simp) h0
+
+/-- **header separation, LF-terminated lines, any segmentation.**  The stream consists of
+    lines `hs` that are not banners, the banner line `l`, an LF, and anything after it
+    (`wire`: each line followed by LF; a CR before the LF is part of the line and stripped like
+    any trailing whitespace, `lineText_crlf`).  However the stream is cut into `recv` results,
+    `get_banner` returns exactly the parse of `l`, the header is exactly the non-blank earlier
+    lines in order, and exactly `after` is left for the caller (unread or not yet received). -/
+theorem header_separation (hs : List Bytes) (l : Bytes) (b : Banner.Banner) (after : Bytes)
+    (cs : List Bytes) (hne : ∀ c ∈ cs, c ≠ []) (h0 : List Str)
+    (hcs : cs.flatten = wire hs ++ (l ++ 0x0a :: after))
     (hhs : ∀ r ∈ hs, (0x0a : UInt8) ∉ r ∧ parse (lineText r) = none)
     (hl : (0x0a : UInt8) ∉ l) (hb : parse (lineText l) = some b) :
-    getBanner h0 (pre.map wire ++ (wire hs ++ (l ++ 0x0a :: after)) :: later)
-      = { banner := some b, header := h0 ++ shown (pre.flatten ++ hs), unread := after } := by
-  induction pre generalizing h0 with
-  | nil =>
-    have hne : (wire hs ++ (l ++ 0x0a :: after)).isEmpty = false := by
-      cases hw : wire hs <;> cases l <;> simp
-    have hnb : isBlankLine (lineText l) = false := by
-      cases hbl : isBlankLine (lineText l) with
-      | false => rfl
-      | true =>
-        have := blank_not_banner _ hbl
-        rw [hb] at this
-        cases this
-    simp only [List.map_nil, List.nil_append, List.flatten_nil, getBanner, hne]
+    (getBanner h0 [] cs).banner = some b ∧ (getBanner h0 [] cs).header = h0 ++ shown hs ∧
+      (getBanner h0 [] cs).unread ++ (getBanner h0 [] cs).pending.flatten = after := by
+  have hnb : isBlankLine (lineText l) = false := by
+    cases hbl : isBlankLine (lineText l) with
+    | false => rfl
+    | true =>
+      have := blank_not_banner _ hbl
+      rw [hb] at this
+      cases this
+  have hfin : finish h0 (wire hs ++ (l ++ 0x0a :: after)) []
+      = { banner := some b, header := h0 ++ shown hs, unread := after, pending := [] } := by
+    unfold finish
     rw [splitLines_wire hs _ (fun r hr => (hhs r hr).1), splitLines_line l after hl,
       scan_pass h0 _ _ (by
         intro r hr
@@ -532,21 +583,78 @@ theorem header_separation (pre : List (List Bytes)) (hs : List Bytes) (l : Bytes
         rw [lineText_lf]; exact (hhs x hx).2)]
     simp only [scan, lineText_lf, hnb, hb, shown_lf]
     simp [flatten_splitLines]
-  | cons ch pre ih =>
-    obtain ⟨hchne, hch⟩ := hpre ch (by simp)
-    have hne := wire_ne_nil ch hchne
-    have hsplit := splitLines_wire ch [] (fun r hr => (hch r hr).1)
-    simp only [List.append_nil, splitLines] at hsplit
-    simp only [List.map_cons, List.cons_append, getBanner, hne]
-    have hscan := scan_pass h0 (ch.map (· ++ [0x0a])) [] (by
+  obtain ⟨a1, a2, a3⟩ := segmentation_independence cs hne h0 []
+  rw [List.nil_append, hcs, hfin] at a1 a2 a3
+  exact ⟨a1, a2, a3⟩
+
+/-- **the unterminated tail.**  If the banner line is the last thing the peer sends and has no
+    line ending, it is still accepted — as the final line, once the peer has stopped sending
+    (closed, timed out or failed) — with the same header, for every segmentation. -/
+theorem header_separation_unterminated (hs : List Bytes) (l : Bytes) (b : Banner.Banner)
+    (cs : List Bytes) (hne : ∀ c ∈ cs, c ≠ []) (h0 : List Str)
+    (hcs : cs.flatten = wire hs ++ l)
+    (hhs : ∀ r ∈ hs, (0x0a : UInt8) ∉ r ∧ parse (lineText r) = none)
+    (hl : (0x0a : UInt8) ∉ l) (hb : parse (lineText l) = some b) :
+    (getBanner h0 [] cs).banner = some b ∧ (getBanner h0 [] cs).header = h0 ++ shown hs ∧
+      (getBanner h0 [] cs).unread = [] ∧ (getBanner h0 [] cs).pending = [] := by
+  have hlne : l ≠ [] := by
+    intro hl0
+    subst hl0
+    have : parse (lineText []) = none := by decide
+    rw [this] at hb
+    cases hb
+  have hnb : isBlankLine (lineText l) = false := by
+    cases hbl : isBlankLine (lineText l) with
+    | false => rfl
+    | true =>
+      have := blank_not_banner _ hbl
+      rw [hb] at this
+      cases this
+  have hfin : finish h0 (wire hs ++ l) []
+      = { banner := some b, header := h0 ++ shown hs, unread := [], pending := [] } := by
+    unfold finish
+    rw [splitLines_wire hs _ (fun r hr => (hhs r hr).1), splitLines_nolf l hlne hl,
+      scan_pass h0 _ _ (by
         intro r hr
         obtain ⟨x, hx, rfl⟩ := List.mem_map.mp hr
-        rw [lineText_lf]; exact (hch x hx).2)
-    rw [List.append_nil] at hscan
-    rw [hsplit, hscan, shown_lf]
-    simp only [scan, Bool.false_eq_true, if_false]
-    rw [ih (h0 ++ shown ch) (fun c hc => hpre c (by simp [hc]))]
-    simp [shown_append, List.append_assoc]
+        rw [lineText_lf]; exact (hhs x hx).2)]
+    simp only [scan, hnb, hb, shown_lf]
+    simp
+  obtain ⟨a1, a2, a3⟩ := segmentation_independence cs hne h0 []
+  rw [List.nil_append, hcs, hfin] at a1 a2 a3
+  have h4 : (getBanner h0 [] cs).unread = [] ∧ (getBanner h0 [] cs).pending.flatten = [] := by
+    simpa using a3
+  refine ⟨a1, a2, h4.1, ?_⟩
+  -- nothing is pending: the banner is only seen once every `recv` result has been requested
+  have hp : ∀ (cs : List Bytes) (h0 : List Str) (buf : Bytes), (∀ c ∈ cs, c ≠ []) →
+      (getBanner h0 buf cs).pending.flatten = [] → (getBanner h0 buf cs).pending = [] := by
+    intro cs
+    induction cs with
+    | nil => intro h0 buf _ _; simp [getBanner, finish]
+    | cons c cs ih =>
+      intro h0 buf hne hflat
+      have hc : c.isEmpty = false := by
+        have := (hne c (by simp)); cases c with
+        | nil => exact absurd rfl this
+        | cons a r => rfl
+      simp only [getBanner, hc] at hflat ⊢
+      cases hs : scan h0 (cutLines (buf ++ c)).1 with
+      | mk b' rest' =>
+        obtain ⟨h, rest⟩ := rest'
+        rw [hs] at hflat
+        cases b' with
+        | some b' =>
+          simp only at hflat ⊢
+          cases cs with
+          | nil => rfl
+          | cons c' cs' =>
+            have hc' := hne c' (by simp)
+            simp at hflat
+            exact absurd hflat.1 hc'
+        | none =>
+          simp only at hflat ⊢
+          exact ih h _ (fun x hx => hne x (by simp [hx])) hflat
+  exact hp cs h0 [] hne h4.2
 
 theorem scan_header (h0 : List Str) (raws : List Bytes) :
     ∀ t ∈ (scan h0 raws).2.1, t ∈ h0 ∨ (parse t = none ∧ isBlankLine t = false) := by
@@ -569,25 +677,13 @@ theorem scan_header (h0 : List Str) (raws : List Bytes) :
             exact Or.inr ⟨hp, by simpa using hb⟩
         · exact Or.inr h
 
-/-- **no banner is ever reported as header text**, for every segmentation of the stream: each
-    header line returned is a non-blank line that is not a banner -/
-theorem header_never_banner (h0 : List Str) (chunks : List Bytes) :
-    ∀ t ∈ (getBanner h0 chunks).header, t ∈ h0 ∨ (parse t = none ∧ isBlankLine t = false) := by
-  induction chunks generalizing h0 with
-  | nil => intro t ht; exact Or.inl ht
-  | cons ch chunks ih =>
-    intro t ht
-    simp only [getBanner] at ht
-    split at ht
-    · exact Or.inl ht
-    · have hsc := scan_header h0 (splitLines ch)
-      split at ht
-      · next b h rest heq => rw [heq] at hsc; exact hsc t ht
-      · next h rest heq =>
-        rw [heq] at hsc
-        rcases ih h t ht with h' | h'
-        · exact hsc t h'
-        · exact Or.inr h'
+/-- **no banner is ever reported as header text**: each header line returned is a non-blank
+    line that is not a banner -/
+theorem header_never_banner (h0 : List Str) (buf : Bytes) (cs : List Bytes) (hne : ∀ c ∈ cs, c ≠ []) :
+    ∀ t ∈ (getBanner h0 buf cs).header, t ∈ h0 ∨ (parse t = none ∧ isBlankLine t = false) := by
+  rw [(segmentation_independence cs hne h0 buf).2.1]
+  unfold finish
+  exact scan_header h0 _
 
 theorem scan_banner (h0 : List Str) (raws : List Bytes) (b : Banner.Banner) (h : (scan h0 raws).1 = some b) :
     ∃ raw ∈ raws, parse (lineText raw) = some b := by
@@ -606,56 +702,28 @@ theorem scan_banner (h0 : List Str) (raws : List Bytes) (b : Banner.Banner) (h :
       · obtain ⟨raw, hr, hp⟩ := ih _ h
         exact ⟨raw, List.mem_cons_of_mem _ hr, hp⟩
 
-/-- the banner returned is the parse of one of the lines as they were cut out of the `recv`
-    results -/
-theorem banner_is_a_line (h0 : List Str) (chunks : List Bytes) (b : Banner.Banner)
-    (h : (getBanner h0 chunks).banner = some b) :
-    ∃ ch ∈ chunks, ∃ raw ∈ splitLines ch, parse (lineText raw) = some b := by
-  induction chunks generalizing h0 with
-  | nil => simp [getBanner] at h
-  | cons ch chunks ih =>
-    simp only [getBanner] at h
-    split at h
-    · simp at h
-    · have hsc := scan_banner h0 (splitLines ch)
-      split at h
-      · next b' hh rest heq =>
-        rw [heq] at hsc
-        simp only at h
-        obtain ⟨raw, hr, hp⟩ := hsc b' rfl
-        simp only [Option.some.injEq] at h
-        subst h
-        exact ⟨ch, by simp, raw, hr, hp⟩
-      · next hh rest heq =>
-        obtain ⟨c, hc, raw, hr, hp⟩ := ih hh h
-        exact ⟨c, List.mem_cons_of_mem _ hc, raw, hr, hp⟩
+/-- the banner returned is the parse of one of the lines of the stream (as cut at LF), never of
+    a fragment of a line -/
+theorem banner_is_a_line (h0 : List Str) (buf : Bytes) (cs : List Bytes) (hne : ∀ c ∈ cs, c ≠ []) (b : Banner.Banner)
+    (h : (getBanner h0 buf cs).banner = some b) :
+    ∃ raw ∈ splitLines (buf ++ cs.flatten), parse (lineText raw) = some b := by
+  rw [(segmentation_independence cs hne h0 buf).1] at h
+  unfold finish at h
+  exact scan_banner h0 _ b h
 
 /-- `SSH-2.0-Open` -/
 def d17a : Bytes := [0x53, 0x53, 0x48, 0x2d, 0x32, 0x2e, 0x30, 0x2d, 0x4f, 0x70, 0x65, 0x6e]
 /-- `SSH_8.0\r\n` -/
 def d17b : Bytes := [0x53, 0x53, 0x48, 0x5f, 0x38, 0x2e, 0x30, 0x0d, 0x0a]
 
-/-- KNOWN FINDING D17, the witness: the banner line `SSH-2.0-OpenSSH_8.0\r\n` delivered in two
-    `recv` results is reported with software `Open`; delivered in one piece, with `OpenSSH_8.0`. -/
-theorem segmented_witness :
-    getBanner [] [d17a, d17b]
-      = { banner := some { protocol := (2, 0), software := some "Open".toList, comments := none, validAscii := true },
-          header := [], unread := [] } ∧
-    getBanner [] [d17a ++ d17b]
+/-- the former D17 witness (repaired in /repo, commit 04fd9e5): `SSH-2.0-OpenSSH_8.0\r\n`
+    delivered in two `recv` results is now reported like the line delivered in one piece -/
+theorem d17_repaired :
+    getBanner [] [] [d17a, d17b] = getBanner [] [] [d17a ++ d17b] ∧
+    getBanner [] [] [d17a, d17b]
       = { banner := some { protocol := (2, 0), software := some "OpenSSH_8.0".toList, comments := none, validAscii := true },
-          header := [], unread := [] } := by
+          header := [], unread := [], pending := [] } := by
   decide +kernel
-
-/-- KNOWN FINDING D17: `header_separation` does **not** extend to arbitrary segmentations of the
-    byte stream — what `get_banner` reports depends on where the stream was cut. -/
-theorem header_separation_segmented_false :
-    ¬ ∀ (c1 c2 : Bytes) (later : List Bytes), c1 ≠ [] → c2 ≠ [] →
-        (getBanner [] (c1 :: c2 :: later)).banner = (getBanner [] ((c1 ++ c2) :: later)).banner := by
-  intro h
-  have h1 := h d17a d17b [] (by decide) (by decide)
-  rw [segmented_witness.1, segmented_witness.2] at h1
-  revert h1
-  decide
 
 /-! ### non-vacuity -/
 
@@ -672,9 +740,9 @@ example : (parse ("SSH-2.0-dropbear_2019.78 caf" ++ "é\t!").toList).map (fun b 
   decide +kernel
 example : normComments " Debian-9etch3   on i686  ".toList = some "Debian-9etch3 on i686".toList := by decide +kernel
 example : joinBlanks "Debian-9etch3".toList [(2, "on".toList), (0, "i686".toList)] = "Debian-9etch3   on i686".toList := by decide +kernel
-example : getBanner [] ["hello\r\n\r\nSSH-2.0-x\r\nrest".toUTF8.toList]
+example : getBanner [] [] ["hel".toUTF8.toList, "lo\r".toUTF8.toList, "\n\r\nSSH-2.".toUTF8.toList, "0-x\r\nre".toUTF8.toList, "st".toUTF8.toList]
     = { banner := some { protocol := (2, 0), software := some ['x'], comments := none, validAscii := true },
-        header := ["hello".toList], unread := "rest".toUTF8.toList } := by
+        header := ["hello".toList], unread := "re".toUTF8.toList, pending := ["st".toUTF8.toList] } := by
   decide +kernel
 
 end SshAudit.C16
